@@ -111,8 +111,8 @@ Print Assumptions C19_accept_stores_exactly.
 
 (* stored_body_has_no_reserved_keys: for EVERY entry point and EVERY request text, no member of the stored TEXT --
    shadowed duplicates of a byte-preserving entry point included -- is named _id, _rev, _revisions, _sync, _purged
-   or _sync_* (reserved_everywhere: the exact common set; _cv, _exp, _deleted, _attachments are NOT in it, see
-   C19_reserved_leaks_exact), and _removed survives only as null *)
+   or _sync_* (reserved_everywhere: the exact common set, which _cv joined with the repair d51088e; _exp, _deleted,
+   _attachments are NOT in it, see C19_reserved_leaks_exact), and _removed survives only as null *)
 Theorem C19_stored_body_has_no_reserved_keys : forall e t r tms tr, accept e t = r -> stored_text t r = Some (tms, tr) ->
   forall k, In k (map fst tms) -> reserved_everywhere k = false.
 Proof. exact stored_no_reserved. Qed.
@@ -125,10 +125,10 @@ Print Assumptions C19_stored_removed_only_null.
 
 (* the names the read paths inject (_id _rev _revisions _exp _cv _deleted _attachments) that nevertheless reach a
    stored body, entry point by entry point and kind by kind: exactly the table [leak] of Accept.v
-     _exp:null              every gateway entry point          _exp:<not a number>   new_edits=false (PUT and _bulk_docs)
-     _cv:<anything>         new_edits=false, BLIP rev, import  _attachments:null     BLIP rev
+     _exp:null              every gateway entry point          _attachments:null     BLIP rev
      _deleted, _attachments import
-   (each line has a witness in C19_Refuted.v / the non-vacuity example) *)
+   (each line has an instance in the non-vacuity example; before the repairs d54ae5f / d51088e the table also had
+   _exp:<not a number> through new_edits=false and _cv through new_edits=false, BLIP rev and import: C19_Refuted.v) *)
 Theorem C19_reserved_leaks_exact : forall e raw tr ms vb, accept e (TObj raw tr) = RStored ms vb ->
   forall k v, In (k, v) ms -> In k read_keys -> leak e k v = true.
 Proof. exact stored_read_key_is_leak. Qed.
@@ -148,23 +148,27 @@ Theorem C19_user_keys_preserved : forall (V : Type) (kd : V -> vk) (canon : V ->
 Proof. exact user_keys_preserved_v. Qed.
 Print Assumptions C19_user_keys_preserved.
 
-(* a text that is not an object is never stored: refused with a status -- or the handler panics, which happens
-   exactly for the literal null on POST /ks/ and on a BLIP rev (refuted as a property in C19_Refuted.v) *)
-Theorem C19_nonobject_never_stored : forall e t, (t = TInvalid \/ t = TNonObj \/ t = TNull) ->
-  (exists s, accept e t = RRej s) \/ accept e t = RPanic.
+(* a text that is not an object is never stored: it is refused with a status, at every entry point (as found, the
+   literal null made POST /ks/ and a BLIP rev panic: repair 0a738b1, C19_Refuted.v) *)
+Theorem C19_nonobject_never_stored : forall e t, (t = TInvalid \/ t = TNonObj \/ t = TNull) -> exists s, accept e t = RRej s.
 Proof. exact nonobject_never_stored. Qed.
 Print Assumptions C19_nonobject_never_stored.
 
-Theorem C19_panic_exactly_null_post_blip : forall e t, accept e t = RPanic <-> t = TNull /\ (e = EPost \/ e = EBlip).
-Proof. exact null_panics_exactly. Qed.
-Print Assumptions C19_panic_exactly_null_post_blip.
+(* no request text makes a handler panic *)
+Theorem C19_never_panics : forall e t, accept e t <> RPanic.
+Proof. exact never_panics. Qed.
+Print Assumptions C19_never_panics.
 
-(* bytes after the object are dropped by every entry point that marshals the body again; they reach the bucket only
-   through the two that keep the received bytes *)
-Theorem C19_trailing_bytes_only_verbatim : forall e t r tms, accept e t = r -> stored_text t r = Some (tms, true) ->
-  e = EBlip \/ e = EImport.
-Proof. exact trailing_stored_only_verbatim. Qed.
-Print Assumptions C19_trailing_bytes_only_verbatim.
+(* no gateway entry point stores bytes after the object (BLIP rev: repair b5cfb32); the only stored text that has
+   them is one an SDK wrote and the on-demand import adopted without rewriting it *)
+Theorem C19_trailing_bytes_only_import : forall e t r tms, accept e t = r -> stored_text t r = Some (tms, true) -> e = EImport.
+Proof. exact trailing_stored_only_import. Qed.
+Print Assumptions C19_trailing_bytes_only_import.
+
+(* the model of the tree as found is the same function with the four repair switches off: with all of them on it is accept *)
+Theorem C19_accept_is_repaired_instance : forall e t, accept_gen repaired e t = accept e t.
+Proof. exact accept_gen_repaired. Qed.
+Print Assumptions C19_accept_is_repaired_instance.
 
 (* BLIP rev with deltaSrc, EE branch (model only: go-fleecedelta is not part of this build): a delta cannot introduce
    a property validateBlipBody refuses; such a member of the result was in the source body and is not touched *)
@@ -221,6 +225,18 @@ Theorem C19_roundtrip_all_pairs : forall (V : Type) (kd : V -> vk) (canon : V ->
 Proof. exact roundtrip_all_pairs. Qed.
 Print Assumptions C19_roundtrip_all_pairs.
 
+(* for everything a gateway entry point wrote, "nothing after the object" needs no hypothesis any more *)
+Theorem C19_roundtrip_gateway_writes : forall (V : Type) (kd : V -> vk) (canon : V -> V) e x mt t d vb,
+  accept_v V kd canon e t = VStored d vb -> e <> EImport ->
+  (forall k, In k (map fst (sd_ms d)) -> ~ In k read_keys) ->
+  exists raw tr out, t = VObj raw tr /\ read canon x mt d = Some out /\
+    forall k o, In (k, o) (parsed out) <->
+      (In k (injected x mt) /\ o = OG) \/
+      (exists v esc, In (k, v, esc) (dedupe_k vkey raw) /\ consumed_e e (k, kd v, esc) = false /\
+                     o = OU (rendered V canon x vb v)).
+Proof. exact roundtrip_gateway_writes. Qed.
+Print Assumptions C19_roundtrip_gateway_writes.
+
 (* the headline, no hypothesis about the stored state left: a written object with distinct names, none of them one of the
    seven read-injected names, and nothing after it.  For every entry point that accepts it and every exit: the read
    succeeds, no name is duplicated, the members are the injected properties plus exactly the written members the
@@ -266,8 +282,12 @@ Example C19_nonvacuous_roundtrip :
     Some [([95; 118; 118], OU KObj); ([97], OU KStr); (k_id, OG); (k_rev, OG); (k_cv, OG)] /\
   read idv (XGet true true) mt {| sd_ms := [([97], KNum); ([97], KStr)]; sd_trailing := false |} =
     Some [([97], OU KStr); (k_id, OG); (k_rev, OG); (k_revisions, OG); (k_exp, OG); (k_cv, OG)] /\
-  leak EPutNE k_exp KTrue = true /\ leak EBlip k_cv KStr = true /\ leak EImport k_deleted KTrue = true /\
-  leak EPut k_exp KNull = true /\ leak EBlip k_attachments KNull = true.
+  leak EPutNE k_exp KNull = true /\ leak EImport k_attachments KObj = true /\ leak EImport k_deleted KTrue = true /\
+  leak EPut k_exp KNull = true /\ leak EBlip k_attachments KNull = true /\
+  accept EPutNE (TObj [(k_exp, KNull, false)] false) = RStored [(k_exp, KNull)] false /\
+  accept EBlip (TObj [(k_attachments, KNull, false)] false) = RStored [(k_attachments, KNull)] true /\
+  accept EImport (TObj [(k_deleted, KTrue, false); (k_attachments, KObj, false)] false) =
+    RStored [(k_deleted, KTrue); (k_attachments, KObj)] true.
 Proof. exact nonvacuous_roundtrip_witness. Qed.
 
 (* ---- the full property, of which the above is a part ----
